@@ -494,3 +494,51 @@ PROPS['C19'] = {
     'level_note': 'Trusted: Lean kernel for the specification clauses only; agreement of the transports with it is established by differential execution',
     'technique': 'executable Lean specification + three-way differential execution (refinement not proved)',
 }
+
+
+def timed_scen(builds, nq, nt):
+    def f(tier, seed):
+        n = nt if tier == 'thorough' else nq
+        out = []
+        for b in builds:
+            for k in range(2):
+                out.append({'build': b, 'args': ['timed', '--seed', str(seed + k), '--n', str(n // 2), '--tier', tier]})
+        return out
+    return f
+
+
+def search_timed(run):
+    for b in run.cfg.get('builds', ['default']):
+        for k in range(3):
+            rc, cases, err = vh(['timed', '--seed', str(60 + k), '--n', '150'], build=b, timeout=1200)
+            bad = [c for c in cases if c.get('oracle')]
+            if bad or rc != 0:
+                return {'implementation': bad[0] if bad else {'exit': rc, 'stderr': err[-800:]},
+                        'replay_cmd': f'harness/target-{b}/debug/vh timed --seed {60 + k} --n 150'}
+    return None
+
+
+PROPS['C10'] = {
+    'modules': ['IpcModel.Props.C10'],
+    'theorems': ['C10.C10_flag', 'C10.C10_try', 'C10.C10_timeout', 'C10.C10_no_poison', 'C10.C10_no_miss', 'C10.C10_wait', 'C10.C10_shape',
+                 'Timed.trace_shape'],
+    'builds': ['default', 'force-inprocess'],
+    'scenarios': timed_scen(['default', 'force-inprocess'], 120, 4000),
+    'search': search_timed,
+    'rule': ('seeded single-threaded scripts of 4..14 operations {send small / multi-packet (1..4 packets), clone sender, drop sender, try_recv, '
+             'try_recv_timeout(d) with d in {0, 1us, 300us, 999us, 1ms, 1.5ms, 3ms, 12ms}, blocking recv when it cannot block}, then a drain, then an '
+             'epilogue with a second thread acting 30 ms later: blocking recv must block until the message is sent (no poisoning), or try_recv_timeout(3 s) '
+             'must return early with a small message / a multi-packet message / the disconnection; OS build: the fcntl/poll/recvmsg calls on the channel '
+             'descriptor are compared with Timed.call, O_NONBLOCK is read back after every call; in-process build: results only; non-trivial = at least two '
+             'receive calls; distinct = distinct script'),
+    'explanation': ('mode/flag logic proved for every queue state, mode, poll answer and call sequence (flag restored, try never waits on the channel socket, '
+                    'empty only after a poll time-out, no message lost, later blocking recv blocks); poll unit regenerated from the source; the real crate '
+                    'compared call by call, with wall-clock lower/upper bounds and a second thread for the early-return and no-poison clauses'),
+    'assumptions': ['poll(2) reports a time-out only if nothing was readable and the peer stayed connected for the whole wait (kernel; lower bound measured)',
+                    'a try_recv that finds the first fragment of a message still being sent waits for that sender (by design: follow-ups are read blocking)'],
+    'level_text': ('Kernel-checked for every kernel-queue state, mode and call sequence: O_NONBLOCK is clear between calls (so a later blocking recv blocks instead of '
+                   'failing), try_recv never waits on the channel socket and returns the head message / empty / disconnected exactly as specified, a timed receive '
+                   'reports empty only after a poll time-out of the duration rounded down to milliseconds, no call loses or reorders a message; system-call '
+                   'sequences and results of the real crate compared with the model, time bounds and early return checked with a second thread'),
+    'level_note': 'Trusted: Lean kernel, translator (flag order, poll unit, event mask), harness; timer accuracy and kernel wake-up during poll are measured, not proved',
+}
